@@ -492,16 +492,26 @@ theorem parse_range (v : Version) : WFv v ↔ ∃ s, Spec.parseVersion s = some 
     obtain ⟨r, hr, rfl⟩ := (parse_iff_grammar s v).mp hs
     exact grammar_wfv hr
 
-/-- the code's parser reads the canonical spelling back too when every field is below 2^63 -/
-theorem impl_parse_render (v : Version) (h : WFv v)
-    (hs : (rawOf v).fields.all (fun f => digitsToNat f ≤ maxInt) = true) :
-    Impl.parseVersion (render v) = some v :=
-  (impl_parse_iff_grammar _ _).mpr ⟨rawOf v, render_grammar h, hs, rawOf_toVersion h⟩
+/-- the code's parser reads the canonical spelling back too when every field is below 2^63 … -/
+theorem impl_parse_render (v : Version) (h : WFv v) (hs : Small v) :
+    Impl.parseVersion (render v) = some v := VersionGrammar.impl_parse_render h hs
+
+/-- … so its range is exactly the well-formed versions with every field below 2^63 -/
+theorem impl_parse_range (v : Version) : (WFv v ∧ Small v) ↔ ∃ s, Impl.parseVersion s = some v := by
+  constructor
+  · rintro ⟨h, hs⟩; exact ⟨render v, impl_parse_render v h hs⟩
+  · rintro ⟨s, hs⟩
+    obtain ⟨r, hr, hsm, rfl⟩ := (impl_parse_iff_grammar s v).mp hs
+    exact ⟨grammar_wfv hr, fields_small_toVersion hsm⟩
+
+/-- the canonical spelling determines the version -/
+theorem render_injective {v w : Version} (hv : WFv v) (hw : WFv w) (h : render v = render w) :
+    v = w := VersionGrammar.render_injective hv hw h
 
 /-- `WFv` implies the `WF` the order theorems ask for -/
 theorem wfv_wf {v : Version} (h : WFv v) : WF v := h.2.2.1
 
-example : WFv ⟨[1, 20], 98, 4, 3, 5, 4, 5⟩ ∧
+example : WFv ⟨[1, 20], 98, 4, 3, 5, 4, 5⟩ ∧ Small ⟨[1, 20], 98, 4, 3, 5, 4, 5⟩ ∧
     render ⟨[1, 20], 98, 4, 3, 5, 4, 5⟩ = "1.20b_rc3_p4-r5".toList := by decide
 
 end grammar
